@@ -75,6 +75,27 @@ func checkoutFile(
 		return err
 	}
 	cachePath = filepath.Join(ch.dir, cachePath)
+	// A regular file that already holds exactly the committed bytes (e.g. from
+	// an earlier copy checkout or a copy commit) is not in the way: there is
+	// nothing to do. Compare against the recorded checksum, not against the
+	// cache file, so a corrupted cache object can never be accepted here.
+	if status.WorkspaceFileStatus == fsutil.StatusRegularFile {
+		workFile, err := os.Open(workPath)
+		if err != nil {
+			return err
+		}
+		workChecksum, err := checksum.Checksum(workFile)
+		workFile.Close()
+		if err != nil {
+			return err
+		}
+		if workChecksum == art.Checksum {
+			if strat == strategy.LinkStrategy && progress != nil {
+				progress.Increment()
+			}
+			return nil
+		}
+	}
 	switch strat {
 	case strategy.CopyStrategy:
 		srcInfo, err := os.Lstat(cachePath)
